@@ -23,7 +23,8 @@ EXTRACTORS = []
 LEAN_MODULES = ["HalmosVerif.Props.C15"]
 RULE = (
     "invariant test contracts assembled from templates with random constants: counter (inc/dec/reset/add(x<k)/set), toggle, "
-    "token-like balances in a keccak mapping with transfer(to, amount), an owner-gated flag, a clock handler using vm.roll / vm.warp, "
+    "token-like balances in a keccak mapping with transfer(to, amount), an owner-gated flag, a target with symbolic storage "
+    "(svm.enableSymbolicStorage; brute force over initial slot values {0,1,7}) whose functions write an explicit zero / leave the slot untouched, a clock handler using vm.roll / vm.warp, "
     "two targets at once; invariant_* functions = probe invariants `state != k` for reachable and unreachable k, bounds, sums; "
     "invariant_depth 0..3; targetContracts / excludeContracts / targetSelectors / excludeSelectors / targetSenders / excludeSenders "
     "returned by asm getters. A case = one (scenario, filter setting, depth, invariant); it is distinct by template, constants' "
@@ -238,7 +239,31 @@ def s_boom(rng, depth):
     return Scenario("InvBoom", [tgt], [Inv("invariant_small", fail_if(get + [("push", 1 << 200), "LT"]))], kind="boom")
 
 
-TEMPLATES = [s_counter, s_counter, s_setter, s_toggle, s_token, s_token, s_owned, s_owned, s_clock, s_two, s_two, s_two, s_boom]
+def s_symstore(rng, depth, variant=None):
+    """target with SYMBOLIC storage (svm.enableSymbolicStorage in setUp, y assumed 0): `clear(){x=0;y=1}` and `mark(){y=1}` reach
+    storage that differs only by "x explicitly zero" vs "x never written (arbitrary)"; both function orders; the invariant
+    `!(y == 1 && x == c)` is breakable only through mark() with the untouched x == c"""
+    v = rng.randrange(4) if variant is None else variant
+    c = [7, 1][(v // 2) % 2]
+    clear = TFn("clear()", [0, 0, "SSTORE", 1, 1, "SSTORE"])
+    mark = TFn("mark()", [1, 1, "SSTORE"])
+    fns = [clear, mark] if v % 2 == 0 else [mark, clear]
+    if v >= 4:
+        fns.append(TFn("wipe()", [0, 0, "SSTORE"]))
+    fns += [TFn("x()", asm.return_word([0, "SLOAD"]), mutability="view"), TFn("y()", asm.return_word([1, "SLOAD"]), mutability="view")]
+    tgt = Target("SymStore", fns)
+    A = FIRST_CREATED
+    gx, gy = call_view(A, asm.selector("x()")), call_view(A, asm.selector("y()"))
+    invs = [Inv("invariant_not_marked_with_c", fail_if(asm.eq_const(gy, 1) + asm.eq_const(gx, c) + ["AND"])),
+            Inv("invariant_not_marked_with_zero", fail_if(asm.eq_const(gy, 1) + gx + ["ISZERO", "AND"], "flag")),
+            Inv("invariant_x_ne_c", fail_if(asm.eq_const(gx, c)))]
+    extra = asm.cheat_call(asm.SVM_ADDRESS, 0xDC00BA4D, [[("push", A)]]) + e2e.assume_or_stop(gy + ["ISZERO"])
+    return Scenario("InvSymStore", [tgt], invs, kind="symbolic-storage:" + ("clear-first" if v % 2 == 0 else "mark-first"),
+                    setup_extra=extra, init_variants=[[(A, 0, x0)] for x0 in (0, 1, 7)])
+
+
+TEMPLATES = [s_counter, s_counter, s_setter, s_toggle, s_token, s_token, s_owned, s_owned, s_clock, s_two, s_two, s_two, s_boom,
+             s_symstore]
 
 
 # ------------------------------------------------------------------------------------------------ halmos output
@@ -305,11 +330,13 @@ def _tok(tok: str, model: dict) -> int:
     return model.get(tok, 0)
 
 
-def replay_lines(batch, scn, block, inv_name):
+def replay_lines(batch, scn, block, inv_name, init=()):
     """the printed call sequence + model on the reference EVM -> (indices of the committed calls, index of the invariant call)"""
     model = block["model"]
     batch.load(0)
     batch.add("baldefault " + e2e.hx(1 << 128))
+    for a_, sl_, v_ in init:
+        batch.add(f"storage {e2e.hx(a_)} {e2e.hx(sl_)} {e2e.hx(v_)}")
     idxs = []
     sels = {}
     for t in scn.targets:
@@ -427,12 +454,15 @@ def check_scenarios(ctx, items):
     for it in items:
         scn, depth = it["scn"], it["depth"]
         it["desc"], it["others"], it["run"] = run_scenario(scn, depth)
-        it["explore"], it["moves"], it["names"] = e2e.explore_lines(batch, scn, it["desc"], depth)
+        it["explore"] = []
+        for init in scn.init_variants:
+            ei, it["moves"], it["names"] = e2e.explore_lines(batch, scn, it["desc"], depth, init)
+            it["explore"].append(ei)
     batch.run(ctx)
     rep = e2e.RefBatch()
     for it in items:
         scn, depth, run = it["scn"], it["depth"], it["run"]
-        it["levels"] = e2e.parse_explore(batch.replies[it["explore"]])
+        it["levels_by_init"] = [e2e.parse_explore(batch.replies[ei]) for ei in it["explore"]]
         it["reports"] = parse_reports(run.stdout)
         rep.world(it["desc"])
         it["replays"] = []
@@ -440,18 +470,21 @@ def check_scenarios(ctx, items):
             for blk in it["reports"].get(f"{inv.name}()", []):
                 if blk["probe"]:
                     continue
-                idxs, inv_idx = replay_lines(rep, scn, blk, inv.name)
-                it["replays"].append((inv.name, blk, idxs, inv_idx))
+                # the model does not name the arbitrary initial storage (symbols `storage_…`): a replay from any admissible
+                # initial storage counts
+                tries = [replay_lines(rep, scn, blk, inv.name, init) for init in scn.init_variants]
+                it["replays"].append((inv.name, blk, tries))
     rep.run(ctx)
     for it in items:
         judge(ctx, it, rep)
 
 
 def judge(ctx, it, rep):
-    scn, depth, run, levels = it["scn"], it["depth"], it["run"], it["levels"]
+    scn, depth, run, levels_by_init = it["scn"], it["depth"], it["run"], it["levels_by_init"]
+    levels = levels_by_init[0]
     by = run.by_name
     fk = flt_key(scn.filters)
-    nstates = sum(len(lv) for lv in levels)
+    nstates = sum(len(lv) for lvs in levels_by_init for lv in lvs)
     ctx.count(f"scenario:{scn.kind}")
     ctx.count(f"depth:{depth}")
     ctx.count(f"filters:{fk}")
@@ -468,13 +501,14 @@ def judge(ctx, it, rep):
         r = by.get(name)
         verdict = {0: "PASS", 1: "FAIL", 2: "TIMEOUT"}.get(r.exitcode, f"ERROR{r.exitcode}") if r is not None else "MISSING"
         first = None
-        for d, lv in enumerate(levels):
-            for s in lv:
-                if e2e.probe_fails(s.probes[j]):
-                    first = (d, s)
+        for vi, lvs in enumerate(levels_by_init):
+            for d, lv in enumerate(lvs):
+                if first is not None and d >= first[0]:
                     break
-            if first:
-                break
+                hit = next((s for s in lv if e2e.probe_fails(s.probes[j])), None)
+                if hit is not None:
+                    first = (d, hit, scn.init_variants[vi])
+                    break
         ctx.case(f"{scn.kind}|{fk}|d{depth}|{inv.name.rstrip('0123456789')}|viol@{first[0] if first else '-'}|{verdict}")
         ctx.count(f"verdict:{'violation-reachable' if first else 'no-violation'}:{verdict}")
         if first:
@@ -484,9 +518,13 @@ def judge(ctx, it, rep):
             continue
         flagged = [m for lv_, m in run.log if lv_ in ("WARNING", "ERROR", "CRITICAL")]
         if first and verdict == "PASS":
-            d, s = first
+            d, s, init0 = first
             seq = [it["moves"][k][0] for k in s.witness]
+            if init0:
+                seq = [f"initial storage {[(hex(a_), sl_, v_) for a_, sl_, v_ in init0]}"] + seq
             needs = "block-number-only-difference" if scn.kind == "clock-roll" else ("filters:" + fk if scn.filters else "plain")
+            if scn.kind.startswith("symbolic-storage"):
+                needs = "untouched-arbitrary-slot-vs-explicit-zero"
             if flagged:
                 ctx.count("pass-on-violation-but-flagged")
                 if not callable_ or inv_errors:
@@ -497,8 +535,13 @@ def judge(ctx, it, rep):
                 f"(depth {d}) reaches a state (storage {s.storage}, number {s.num}, timestamp {s.ts}) in which the invariant fails "
                 f"on the reference EVM; warnings: {flagged[:2]}", dict(base, invariant=name, sequence=seq))
     # counterexample sequences must replay and be within the depth
-    for inv_name, blk, idxs, inv_idx in it["replays"]:
+    for inv_name, blk, tries in it["replays"]:
         ctx.count("cex-sequence:seen")
+        idxs, inv_idx = tries[0]
+        for ti, ii in tries:
+            if ti is not None and all(rep.outcome(i).halt == "success" for i in ti) and rep.outcome(ii).fails():
+                idxs, inv_idx = ti, ii
+                break
         if idxs is None:
             ctx.violation(f"cex-sequence-unparsable|{scn.kind}", f"{scn.name}.{inv_name}: {blk['calls']}", base)
             continue
@@ -533,7 +576,7 @@ def judge(ctx, it, rep):
     # assertion failures inside targets reachable within depth-1 calls must at least be reported
     if depth >= 1:
         reach = set()
-        for d, lv in enumerate(levels[:depth]):
+        for d, lv in [(d_, lv_) for lvs in levels_by_init for d_, lv_ in enumerate(lvs[:depth])]:
             for s in lv:
                 for k, data in s.panicking_moves.items():
                     if len(data) == 36 and data[:4] == asm.PANIC_SELECTOR.to_bytes(4, "big") and int.from_bytes(data[4:], "big") == 1:
@@ -554,7 +597,7 @@ def make_item(seed, tmpl_idx, depth, mode=None, variant=None):
     tmpl = TEMPLATES[tmpl_idx % len(TEMPLATES)]
     if mode:
         scn = tmpl(rng, depth, mode)
-    elif variant is not None and tmpl in (s_token, s_owned, s_two):
+    elif variant is not None and tmpl in (s_token, s_owned, s_two, s_symstore):
         scn = tmpl(rng, depth, variant)
     else:
         scn = tmpl(rng, depth)
@@ -579,6 +622,9 @@ def correspond(ctx):
         items.append(make_item(1000 + v, TEMPLATES.index(s_two), 2, variant=v))
     for v in (6, 7):
         items.append(make_item(2000 + v, TEMPLATES.index(s_owned), 1, variant=v))
+    # directed: symbolic target storage, "explicit zero" vs "never written", both function orders
+    for v in range(6):
+        items.append(make_item(3000 + v, TEMPLATES.index(s_symstore), 1 + v % 2, variant=v))
     n = ctx.scale(30, 390)
     for i in range(n):
         t = i % len(TEMPLATES)
